@@ -72,6 +72,8 @@ def gen_join_scenario(rng, variant, tier, style=None, stop=False):
     if style == "bigjoin":
         # JoinSize beyond any plausible preallocation limit: a few thousand elements arriving at once
         J = rng.choice([1030, 1500, 2600])
+        if variant == 1 and rng.random() < 0.34:
+            J = 70000          # beyond a 16-bit preallocation limit; unite only (whole slices, a few dozen puts)
         n = 2 * J + rng.randrange(1, J)
     Tm = max(T, 40 * unit)
     gaps = [0, 0, 0, 2 * unit, 20 * unit, Tm // 2, Tm, Tm + (ivl or 0), 3 * Tm]
